@@ -394,11 +394,14 @@ func c47scenario(c *rig.Ctx, box *srvBox, i int, st *c47stats, label string) {
 	}
 	nsteps := 3 + r.Intn(4)
 	lastDropAt := map[string]int{}
-	switch r.Intn(4) {
+	switch i % 4 { // (index-driven, so that every run contains both sequences)
 	case 0:
 		// the contested sequence: drop, re-create under the same (or a differently-cased) name, drop again, restore
 		fam := c47names[fams[0]]
 		second := fam[r.Intn(len(fam))]
+		if i%8 == 0 {
+			second = first[fams[0]] // exactly the same name twice
+		}
 		w.drop(x, first[fams[0]])
 		w.checkNames(x, "after first drop")
 		w.create(x, r, second)
@@ -415,7 +418,7 @@ func c47scenario(c *rig.Ctx, box *srvBox, i int, st *c47stats, label string) {
 	case 1:
 		// drop, (restart,) purge, restore: must be refused
 		w.drop(x, first[fams[0]])
-		if r.Intn(2) == 0 {
+		if i%8 == 1 {
 			x.Close()
 			w.script = append(w.script, "-- server restart")
 			box.restart()
